@@ -4,7 +4,7 @@
 patch=$(readlink -f "$1"); prop=$2; tier=${3:-quick}; seed=${4:-1}
 cd /repo || exit 2
 if ! git diff --quiet; then echo "/repo has local changes, refusing"; exit 2; fi
-restore() { git -C /repo checkout -- . ; }
+restore() { git -C /repo checkout -- . ; (cd /verif/monitor && cargo build -q -p cqmon -p desmon 2>/dev/null); }
 trap restore EXIT
 git apply "$patch" || { echo "patch does not apply"; exit 2; }
 cd /verif && VERIF_SEED=$seed ./check "$prop" "$tier"
